@@ -17,14 +17,46 @@ from ..report import Check
 SITES = [("agilerl.networks.base", None), ("agilerl.modules.base", None), ("agilerl.hpo.mutation", None)]
 
 
-def _is_class_call(c: ast.Call) -> bool:
+def _class_valued(e: ast.AST) -> bool:
+    """an expression that denotes a class: type(x), x.__class__, an attribute `<...>_cls`, a mapping entry / .get() under a key ending in `_cls`"""
+    if isinstance(e, ast.Call) and call_name(e) == "type" and len(e.args) == 1:
+        return True
+    if isinstance(e, ast.Attribute) and (e.attr == "__class__" or e.attr.endswith("_cls")):
+        return True
+    if isinstance(e, ast.Subscript):
+        k = e.slice
+        if isinstance(k, ast.Constant) and isinstance(k.value, str) and k.value.endswith("_cls"):
+            return True
+        if isinstance(k, ast.JoinedStr) and k.values and isinstance(k.values[-1], ast.Constant) and str(k.values[-1].value).endswith("_cls"):
+            return True
+    if isinstance(e, ast.Call) and isinstance(e.func, ast.Attribute) and e.func.attr == "get" and e.args:
+        return _class_valued(ast.Subscript(value=e.func.value, slice=e.args[0], ctx=ast.Load()))
+    if isinstance(e, ast.IfExp):
+        return _class_valued(e.body) and _class_valued(e.orelse)
+    return False
+
+
+def _is_class_call(c: ast.Call, cfg: Optional[CFG] = None) -> bool:
+    """the callee is a class held in a variable / attribute (not a class named in the source): by what the callee IS, never by how a local is spelled"""
     f = c.func
-    if isinstance(f, ast.Attribute) and (f.attr.endswith("_cls") or f.attr == "__class__"):
+    if _class_valued(f):
         return True
-    if isinstance(f, ast.Name) and f.id.endswith("_cls"):
-        return True
-    if isinstance(f, ast.Call) and call_name(f) == "type":
-        return True
+    if isinstance(f, ast.Name) and cfg is not None:
+        at = cfg.node_of(c)
+        if at is None:
+            return False
+        defs = cfg.defs_reaching(at, f.id)
+        vals = [cfg.value_of_def(d, f.id) for d in defs if d.kind != "entry"]
+        if vals and all(v is not None and _class_valued(v) for v in vals) and not any(d.kind == "entry" for d in defs):
+            return True
+        # the loop variable of `for cls_, d in zip(<classes>, <descriptions>)` where <classes> is class-valued
+        for d in defs:
+            if d.kind == "for" and isinstance(d.ast.iter, ast.Call) and call_name(d.ast.iter) == "zip" and isinstance(d.ast.target, ast.Tuple):
+                for tgt, src in zip(d.ast.target.elts, d.ast.iter.args):
+                    if isinstance(tgt, ast.Name) and tgt.id == f.id and isinstance(src, ast.Name):
+                        sv = [cfg.value_of_def(x, src.id) for x in cfg.defs_reaching(d, src.id)]
+                        if sv and all(v is not None and _class_valued(v) for v in sv):
+                            return True
     return False
 
 
@@ -61,12 +93,12 @@ def run_r3(ck: Check, repo: Repo) -> None:
         for fn in fns:
             cfg = None
             for c in calls_in(fn.node):
-                if not _is_class_call(c):
-                    continue
                 splats = [k.value for k in c.keywords if k.arg is None]
                 if not splats:
                     continue
                 cfg = cfg or CFG(fn.node)
+                if not _is_class_call(c, cfg):
+                    continue
                 at = cfg.node_of(c)
                 if at is None:
                     continue
